@@ -27,3 +27,25 @@ Theorem C01_same_media_byte :
       new e + k < ilen J /\ iget J (new e + k) = iget inp (e + k).
 Proof. exact same_media_byte. Qed.
 Print Assumptions C01_same_media_byte.
+
+(* the same with the written file read by the specification itself (its tiling, its last moov, the tables of that moov's payload),
+   together with the verdict of a second run on it (C02 b): the statement mentions the returned metadata only through the file *)
+Theorem C01_spliced_file_addresses_same_bytes :
+  forall (cfg : config) (lenient lenient2 : bool) (inp : input) (fuel fuel2 : nat) (o : out) (md : bytes) (pad : N),
+  max_metadata_size cfg < 4294967296 -> ilen inp <= U64MAX ->
+  (forall t, cumulative_mdat_box_size cfg = Some t -> t <= U32MAX) ->
+  mp4_sanitize cfg lenient U64MAX' inp fuel = Ok o -> o_metadata o = Some (md, pad) ->
+  let off := s_off (o_data o) in
+  let len := s_len (o_data o) in
+  let J := splice md pad inp off len in
+  ilen J <= U64MAX -> (N.to_nat (ilen J / 8) < fuel2)%nat ->
+  exists bs m ts bs2 m2,
+    tiling (cumulative_mdat_box_size cfg) inp = Some bs /\ last_moov bs = Some m /\ co_tables (tb_payload inp m) = Some ts /\
+    tiling (cumulative_mdat_box_size cfg) J = Some bs2 /\ last_moov bs2 = Some m2 /\
+    let new := fun e : N => Z.to_N (Z.of_N e + (Z.of_N (blen md + pad) - Z.of_N off)) in
+    co_tables (tb_payload J m2) = Some (map (fun t : N * list N => (fst t, map new (snd t))) ts) /\
+    (forall t e k, In t ts -> In e (snd t) -> off <= e + k < off + len ->
+       new e + k < ilen J /\ iget J (new e + k) = iget inp (e + k)) /\
+    mp4_sanitize cfg lenient2 U64MAX' J fuel2 = Ok {| o_metadata := None; o_data := {| s_off := blen md + pad; s_len := len |} |}.
+Proof. exact spliced_file_addresses_same_bytes. Qed.
+Print Assumptions C01_spliced_file_addresses_same_bytes.
